@@ -20,12 +20,18 @@ type c02Case struct {
 	Src      string   `json:"src"`
 	Want     string   `json:"want"` // Exact skeleton of the one command
 	Comments []string `json:"comments"`
+	// Kind is how the source is handed over (see mkSource); "" = as a string.
+	Kind string `json:"kind,omitempty"`
 }
 
 func checkC02(c c02Case) error {
-	cmds, comments, err := parser.ParseCommands(nil, "c02", c.Src)
+	src, consumed := mkSource(c.Kind, c.Src)
+	cmds, comments, err := parser.ParseCommands(nil, "c02", src)
 	if err != nil {
-		return fmt.Errorf("grammatical program rejected: %v\nsrc: %q", err, c.Src)
+		return fmt.Errorf("grammatical program rejected (source kind %q): %v\nsrc: %q", c.Kind, err, c.Src)
+	}
+	if n := consumed(); n >= 0 && n != len(c.Src) {
+		return fmt.Errorf("the program is the whole source, but the %s was left at offset %d of %d\nsrc: %q", c.Kind, n, len(c.Src), c.Src)
 	}
 	if len(cmds) != 1 {
 		return fmt.Errorf("got %d commands, want 1\nsrc: %q", len(cmds), c.Src)
@@ -115,9 +121,18 @@ func TestC02(t *testing.T) {
 	defer st.Write()
 	sh, nsh := shard()
 
+	kind, trim := "", false
 	run := func(tt fataler, p *gen.Program, lay gen.Layout, rapidCase bool) {
 		r := gen.Render(p.Stream, lay)
-		c := c02Case{Src: r.Src, Want: p.Skel, Comments: commentSkels(r.Comments)}
+		c := c02Case{Src: r.Src, Want: p.Skel, Comments: commentSkels(r.Comments), Kind: kind}
+		if trim && p.Feat["heredoc"] == 0 && strings.HasSuffix(c.Src, "\n") && !strings.HasSuffix(c.Src, "\\\n") {
+			// the final newline is optional
+			c.Src = strings.TrimSuffix(c.Src, "\n")
+			st.Class("source_without_final_newline")
+		}
+		if kind != "" {
+			st.Class("source_kind_" + kind)
+		}
 		jr.begin("C02", "derivation", c)
 		err := checkC02(c)
 		jr.end()
@@ -193,7 +208,10 @@ func TestC02(t *testing.T) {
 		if rapid.IntRange(0, 3).Draw(rt, "layout") != 0 {
 			lay = gen.RandomLayout{T: rt, Comments: true, Conts: !excluded["no_line_continuation"], Linebreaks: true}
 		}
+		kind = rapid.SampledFrom(append(append([]string{"", "", ""}, scannerKinds...), readerKinds...)).Draw(rt, "kind")
+		trim = rapid.IntRange(0, 2).Draw(rt, "trim") == 0
 		run(rt, p, lay, true)
+		kind, trim = "", false
 	}
 	runRapid(t, n, prop)
 	_ = sort.Strings
